@@ -59,6 +59,11 @@ CLAIMED = {
             'every conflict site of sat_core::propagate fails at root and learns otherwise; theories are all checked before success; next() and check() have the required shape; the root simplification table of '
             'new_clause; the classification of reason literals in analyze. Soundness of first-UIP learning on arbitrary trails is not decided.',
             'The structural facts are written for the MiniSat-style design the code follows; local names are resolved by role.', 'DESIGN.md 4 C07'),
+    'C03': ('clause-schema extraction of the causal encoding (flaw expansion, resolvers, unification, activation), CFG typestate of the ni bracketing, traversal-sibling comparison of atom::new_eq/equates, polarity-dispatch rule',
+            'Static: an active flaw forces one of its resolvers (exactly one for atom / bool / var flaws), a resolver implies its flaw; the unification resolver carries !sigma, sigma(target) and the field-complete equality, '
+            'skips causally later / unified / non-equating targets and is causally linked; activation posts sigma and applies the inherited rules under the right controlling literal; every flaw is ordered strictly after its '
+            'causes; activation events are dispatched on the literal, not the variable. That search finds a justification is not decided.',
+            'Trusts C13 (new_conj), C10/C12 (IDL distances) and C14 for the literals used.', 'DESIGN.md 4 C03'),
 }
 
 NOT_YET = {}
